@@ -166,6 +166,9 @@ def run(rep, tier):
     # of VM": the context rules of C09 that concern this engine are obligations here too
     import props.c09 as c09
     c09.run(rep, tier, parts=("cranelift", "ctor"))
+    # helper calls under Cranelift (C08's Cranelift-side rules) are part of "same result as the interpreter"
+    import props.c08 as c08
+    c08.run(rep, tier, parts=("cranelift",))
     rep.trust("rustc front end / typed THIR", "clmodel.py: InstBuilder semantics from the Cranelift 0.127 documentation", "Cranelift's lowering",
               "imodel (validated against the ISA under C01)")
     rep.assume("little-endian 64-bit host", "in-bounds accesses (bounds checks are decided under C11)")
